@@ -1007,6 +1007,9 @@ func famStreams(dir string, seed int64, tier string) {
 		}
 		wP.add(fmt.Sprintf("ProcCase %s %s %s %s", p.coq(), coqTokens(ts), classOf(err), coqLogs(rc)), desc, p.kind != "tokens")
 	}
+	streamsSharedToken(repC)
+	streamsMarshalFaults(repP)
+	streamsDerefSubFault(repP)
 	wC.flush()
 	wP.flush()
 	repC.write(dir)
